@@ -18,14 +18,14 @@ CLAIMS = {
   note="Acceptance of every legal layout is decided per synthesised image, not proved (the Raw model's `open` has safety and strict-subset-permissive theorems, C05/C16, not a completeness theorem). Files with unreachable allocated entries or unreadable chains cannot be loaded into the model (none occur in valid layouts). Trusted: Lean kernel, standard axioms, the layout writer and SpecCheck as definition of spec-valid, harness.",
   design="§3 C04"),
  "C03": dict(
-  technique="Independent executable checker written in Lean (SpecCheck: own parser, the property's rule list) run on the byte-exact allocation model's image after every call (verdict transferred to the real file by equal length and hash) and directly on real snapshots incl. an 18 MB image with two DIFAT sectors; Lean proofs of the allocator facts behind single ownership and marking (a handed-out sector was FREE or new; FAT sectors are entered in the DIFAT and marked; invariant kept), tree rules from the directory model's invariant",
-  text="Proof: CfbVerif.Props.C03 — C03_handed_out_was_free, C03_extension_new, C03_fat_sector_marked; FatInv from C15 (C15_inv_create, freeChain_spec); sibling trees are search trees without red-red after every history (C01_reachable). "
+  technique="Independent executable checker written in Lean (SpecCheck: own parser, the property's rule list) run on the byte-exact allocation model's image after every call (verdict transferred to the real file by equal length and hash) and directly on real snapshots incl. an 18 MB image with two DIFAT sectors; Lean proofs of the allocator facts behind single ownership and marking (after every API history the free list is exactly the FREE cells, a handed-out sector was FREE or new; FAT sectors are entered in the DIFAT and marked), tree rules from the directory model's invariant",
+  text="Proof: CfbVerif.Props.C03 — C03_handed_out_was_free, C03_extension_new, C03_fat_sector_marked; the allocator invariant after every API history (inv_reachable, inv_allocateSector); sibling trees are search trees without red-red after every history (C01_reachable). "
        "Tie: every call boundary of every generated history (both versions, sizes on all boundaries, handles, reopen, cycles, several FAT sectors) is judged by SpecCheck on the model image, which the lock-step shows identical to the real bytes; mismatching boundaries and sampled snapshots are judged on the real bytes; the large file exercises >109 FAT sectors and two DIFAT sectors.",
   note="SpecCheck is run, not proved complete or sound; the theorems cover the allocator core, not the whole rule list. The mini stream's chain may be longer than needed (never shrinks): accepted. Trusted: Lean kernel + compiler for the executable checker, translator, hooks, harness.",
   design="§3 C03"),
  "C15": dict(
-  technique="Lean 4 invariant proofs about a byte-exact allocation model (free lists hold exactly free sectors, each once; an allocation with a non-empty free list reuses a freed sector and leaves the file length alone; freeing a chain returns every sector; same for mini sectors) + lock-step of API histories comparing the complete file image and allocator caches after every call + cycle oracle on the implementation's file length",
-  text="Proof: CfbVerif.Props.C15 — FatInv holds in a fresh file (C15_inv_create) and is kept by allocation and release; C15_sector_reuse (no growth while the free list is non-empty, the sector handed out was FREE), C15_release (every sector of a freed chain lands on the free list), C15_mini_reuse (a really free mini sector is reused, neither mini stream nor file grows), C15_cycle_partial (release then allocate does not grow). "
+  technique="Lean 4 invariant proof by induction over all API histories of a byte-exact allocation model (the free list is exactly the set of FREE cells of the FAT, each once, after every history; hence the file grows only when not a single FREE sector exists and whatever is handed out was FREE or new; n allocations with n free sectors do not grow the file; freeing a chain returns every sector; same for mini sectors) + lock-step of API histories comparing the complete file image and allocator caches after every call + cycle oracle on the implementation's file length",
+  text="Proof: CfbVerif.Props.C15 — C15_inv_reachable (every operation of the allocation level — set_fat, allocate_sector incl. FAT/DIFAT growth, extend_chain, free_chain, chain and mini-chain write/set_len, the write/resize case tables, allocate_dir_entry, reopen — and physOf composed of them is `Good`; Phys/Inv.lean, Phys/ApiInv.lean), C15_grow_only_when_full, C15_many_reuse, C15_release_grows_free; FatInv holds in a fresh file (C15_inv_create) and is kept by allocation and release; C15_sector_reuse (no growth while the free list is non-empty, the sector handed out was FREE), C15_release (every sector of a freed chain lands on the free list), C15_mini_reuse (a really free mini sector is reused, neither mini stream nor file grows), C15_cycle_partial (release then allocate does not grow). "
        "Tie: Phys is a table-level port of alloc.rs/minialloc.rs/chain.rs/minichain.rs/stream.rs rendered to bytes; the rendered image (len + FNV-64) and the caches equal the real ones after every call of every generated history; net-zero cycles of 6 shapes are repeated 3-4 times after random prefixes and judged on the real file length.",
   note="The whole-cycle statement is not a theorem (decided per history). Known finding F16: growth confined to the second repetition when the first one moved data into the never-shrinking mini container. Trusted: Lean kernel, standard axioms, translator, hooks H2/H3, harness generators.",
   design="§3 C15"),
